@@ -283,7 +283,7 @@ Ltac fq_app_simple st0 out0 xref0 :=
   eapply (fq_inv_simple_append st0 out0 xref0); fqsimp; try reflexivity; try eassumption; try lia.
 
 Lemma fq_step_inv : forall s line s',
-  fq_inv s -> fq_contains fqk_type_objstm line = false -> fq_contains fqk_type_xref line = false ->
+  fq_inv s -> fq_is_type_line line fqk_type_objstm = false -> fq_is_type_line line fqk_type_xref = false ->
   fq_step s line = inl s' -> fq_inv s'.
 Proof.
   intros s line s' Hinv Hn1 Hn2 Hstep.
@@ -375,7 +375,7 @@ Proof.
 Qed.
 
 Definition fq_plain (l : list N) : Prop :=
-  fq_contains fqk_type_objstm l = false /\ fq_contains fqk_type_xref l = false.
+  fq_is_type_line l fqk_type_objstm = false /\ fq_is_type_line l fqk_type_xref = false.
 
 Lemma fq_run_inv : forall lines s s', fq_inv s -> Forall fq_plain lines -> fq_run s lines = inl s' -> fq_inv s'.
 Proof.
@@ -536,7 +536,7 @@ Qed.
    every recorded offset fits; field 2 gets one byte; /Length is (n+1) * (1 + f1 + f2) *)
 Lemma fixqdf_xref_stream_widths_lemma : forall lines s line s',
   Forall fq_plain lines -> fq_run fq_init lines = inl s -> q_st s = Fq_in_obj ->
-  fq_contains fqk_type_objstm line = false -> fq_contains fqk_type_xref line = true ->
+  fq_is_type_line line fqk_type_objstm = false -> fq_is_type_line line fqk_type_xref = true ->
   fq_eqb line fqk_stream_nl = false -> fq_eqb line fqk_endobj_nl = false ->
   fq_step s line = inl s' -> q_offset s < 2 ^ 63 ->
   q_st s' = Fq_in_xref_stream_dict /\ q_xref s' = q_xref s /\
@@ -565,8 +565,8 @@ Proof.
           repeat match type of E with
                  | context [match ?c with _ => _ end] =>
                      match c with
-                     | fq_contains fqk_type_objstm l => rewrite Hp1 in E
-                     | fq_contains fqk_type_xref l => rewrite Hp2 in E
+                     | fq_is_type_line l fqk_type_objstm => rewrite Hp1 in E
+                     | fq_is_type_line l fqk_type_xref => rewrite Hp2 in E
                      | fq_check_obj_id _ _ => let Ec := fresh "Ec" in destruct c eqn:Ec; [apply fq_check_obj_id_ok in Ec; destruct Ec as [-> _]|]
                      | _ => destruct c
                      end
@@ -908,7 +908,7 @@ Proof.
 Qed.
 
 Lemma fq_step_objstm_type_line : forall tyline lineno offset last_offset last_obj xref sstart slen xoff f1 f2 xsize ostream ooffs odisc oidx oid oext out,
-  fq_eqb tyline fqk_stream_nl = false -> fq_eqb tyline fqk_endobj_nl = false -> fq_contains fqk_type_objstm tyline = true ->
+  fq_eqb tyline fqk_stream_nl = false -> fq_eqb tyline fqk_endobj_nl = false -> fq_is_type_line tyline fqk_type_objstm = true ->
   fq_step (mkfq Fq_in_obj lineno offset last_offset last_obj xref sstart slen xoff f1 f2 xsize ostream ooffs odisc oidx oid oext out) tyline
   = inl (mkfq Fq_in_ostream_dict (lineno + 1) (offset + fq_len tyline) offset last_obj xref sstart slen xoff f1 f2 xsize ostream ooffs odisc oidx
               last_obj oext (tyline :: out)).
@@ -950,7 +950,7 @@ Qed.
    the members verbatim, "endstream"; offsets stay exact; members get type-2 entries (this stream, 0..n-1) *)
 Lemma fixqdf_object_stream_lemma : forall s tyline dict junk m ms,
   q_st s = Fq_in_obj -> q_ostream s = [] -> q_ooffs s = [] -> q_odisc s = [] -> q_oidx s = 0 -> q_oext s = [] ->
-  fq_eqb tyline fqk_stream_nl = false -> fq_eqb tyline fqk_endobj_nl = false -> fq_contains fqk_type_objstm tyline = true ->
+  fq_eqb tyline fqk_stream_nl = false -> fq_eqb tyline fqk_endobj_nl = false -> fq_is_type_line tyline fqk_type_objstm = true ->
   Forall (fun l => fq_eqb l fqk_stream_nl = false) dict ->
   Forall (fun l => fq_match_ostream_obj l = None) junk ->
   fq_members_ok (q_last_obj s + 1) (m :: ms) ->
@@ -1048,7 +1048,8 @@ Qed.
      Theorem fixqdf_wf : forall f, qdf_layout (lines f) -> wf_file id (fixqdf f) = true /\ doc_of (fixqdf f) = doc_of_layout f.
      Theorem fixqdf_idempotent : forall f, qdf_layout (lines f) -> fixqdf (fixqdf f) = fixqdf f.
 
-   are FALSE on the faithful model for three input classes (known findings C17-F1, C17-F2, C17-F3); what is
+   are FALSE on the faithful model for three input classes (known findings C17-F1, C17-F3, C17-F4; a fourth,
+   C17-F2, was repaired in /repo by e1b84020 and the model follows the repaired code); what is
    proved instead is fixqdf_offset_invariant / fixqdf_classic_table above (the cross-reference half of fixqdf_wf for
    classic files, for ALL inputs), the width lemmas below, and the refutations here.  fixqdf_idempotent and the
    stream-length half of fixqdf_wf are not proved (checked on every generated case by the harness).
@@ -1077,21 +1078,37 @@ Proof.
   intros ->. assert (list_eqb N.eqb f f = true) by (apply list_eqb_N_eq; reflexivity). congruence.
 Qed.
 
-(* C17-F1 and C17-F2: two files written by the real qpdf --qdf (classic cross-reference table), both strictly valid
-   PDF; the second obeys every layout rule; fix-qdf applied to the UNEDITED file exits 0 and writes a different,
-   invalid file.  (fixqdf_identity and the premise-free reading of fixqdf_wf are false.) *)
+(* C17-F1: a file written by the real qpdf --qdf (classic cross-reference table), strictly valid PDF; fix-qdf applied
+   to the UNEDITED file exits 0 and writes a different, invalid file.  (fixqdf_identity and the premise-free reading
+   of fixqdf_wf are false.) *)
 Lemma fixqdf_identity_refuted_lemma :
   (exists sf, read_strict c17_w_endstream = RsOk sf) /\
-  (exists g c a, fixqdf c17_w_endstream = FqDone g /\ g <> c17_w_endstream /\ read_strict g = RsErr c a) /\
-  qdf_layout c17_w_marker = QlOk /\
-  (exists sf, read_strict c17_w_marker = RsOk sf) /\
-  (exists g c a, fixqdf c17_w_marker = FqDone g /\ g <> c17_w_marker /\ read_strict g = RsErr c a).
+  (exists g c a, fixqdf c17_w_endstream = FqDone g /\ g <> c17_w_endstream /\ read_strict g = RsErr c a).
 Proof.
   split; [apply rs_ok_true; vm_compute; reflexivity|].
-  split; [apply fq_damages_spec; vm_compute; reflexivity|].
+  apply fq_damages_spec; vm_compute; reflexivity.
+Qed.
+
+(* former finding C17-F2, repaired in /repo by e1b84020 (is_type_line): the real --qdf output of a document whose
+   dictionary holds the string (/Type /XRef) obeys every layout rule, is strictly valid, has no marker LINE although it
+   contains the marker TEXT, and fix-qdf now reproduces it byte for byte.  (With the substring matcher of the
+   unrepaired code the model wrote a damaged file here; that was fixqdf_identity_refuted's second half.) *)
+Lemma fixqdf_marker_text_identity_lemma :
+  qdf_layout c17_w_marker = QlOk /\
+  (exists sf, read_strict c17_w_marker = RsOk sf) /\
+  existsb (fq_contains fqk_type_xref) (fq_split_lines c17_w_marker) = true /\
+  Forall fq_plain (fq_split_lines c17_w_marker) /\
+  fixqdf c17_w_marker = FqDone c17_w_marker.
+Proof.
   split; [vm_compute; reflexivity|].
   split; [apply rs_ok_true; vm_compute; reflexivity|].
-  apply fq_damages_spec; vm_compute; reflexivity.
+  split; [vm_compute; reflexivity|].
+  split; [|vm_compute; reflexivity].
+  apply Forall_forall. intros l Hl.
+  assert (H : forallb (fun l => negb (fq_is_type_line l fqk_type_objstm) && negb (fq_is_type_line l fqk_type_xref)) (fq_split_lines c17_w_marker) = true)
+    by (vm_compute; reflexivity).
+  rewrite forallb_forall in H. specialize (H l Hl). apply andb_true_iff in H. destruct H as [H1 H2].
+  apply negb_true_iff in H1. apply negb_true_iff in H2. split; assumption.
 Qed.
 
 (* C17-F1 seen from the layout side: stream data containing a line "endstream" is written verbatim, so the real
@@ -1163,7 +1180,7 @@ Qed.
 (* the plain case, for contrast and as the non-vacuity witness of the theorems above: real --qdf output of
    minimal.pdf has no marker lines, the run reaches the end state, and fix-qdf reproduces it byte for byte *)
 Definition fq_plainb (l : list N) : bool :=
-  negb (fq_contains fqk_type_objstm l) && negb (fq_contains fqk_type_xref l).
+  negb (fq_is_type_line l fqk_type_objstm) && negb (fq_is_type_line l fqk_type_xref).
 
 Lemma fq_plainb_spec : forall ls, forallb fq_plainb ls = true -> Forall fq_plain ls.
 Proof.
@@ -1206,7 +1223,7 @@ Lemma fixqdf_object_stream_example_lemma :
   q_st c17_ex_state = Fq_in_obj /\ q_ostream c17_ex_state = [] /\ q_ooffs c17_ex_state = [] /\ q_odisc c17_ex_state = [] /\
   q_oidx c17_ex_state = 0 /\ q_oext c17_ex_state = [] /\
   fq_eqb c17_l_type fqk_stream_nl = false /\ fq_eqb c17_l_type fqk_endobj_nl = false /\
-  fq_contains fqk_type_objstm c17_l_type = true /\
+  fq_is_type_line c17_l_type fqk_type_objstm = true /\
   Forall (fun l => fq_eqb l fqk_stream_nl = false) [c17_l_olddict; c17_l_close] /\
   Forall (fun l => fq_match_ostream_obj l = None) [c17_l_pair] /\
   fq_members_ok (q_last_obj c17_ex_state + 1) [c17_ex_member] /\
